@@ -417,7 +417,7 @@ def raw_gfa(draw, max_nodes=7, max_links=12, seq_mode="seq", link_tags=True, seg
                 a, oa, b, ob = b, FLIP[ob], a, FLIP[oa]
             links.append([a, oa, b, ob, ov, list(tags)])
             continue
-        ov = draw(st.sampled_from([0, 0, 0, 1, 5]))
+        ov = draw(st.sampled_from([0, 0, 0, 1, 5, 12, 30, 250]))  # overlaps of one, two and three digits
         tags = draw(sam_tags(max_tags=2)) if (link_tags and draw(st.booleans())) else []
         seen[key] = (ov, tags)
         links.append([a, oa, b, ob, ov, list(tags)])
